@@ -51,10 +51,8 @@ class GMRF(CallableModel):
         self.precision = precision
         self.rescale = rescale
 
-    def _call(self, *args, **kwargs) -> torch.Tensor:
-        diff_square = torch.pow(
-            self.field.tensor[..., :-1] - self.field.tensor[..., 1:], 2.0
-        )
+    def _difference_weights(self) -> torch.Tensor:
+        r"""Weights dividing the squared first differences (None for the plain GMRF)."""
         if self.tree_model is not None:
             heights = torch.cat(
                 (
@@ -70,11 +68,19 @@ class GMRF(CallableModel):
             indices = torch.argsort(heights, descending=False)
             heights_sorted = torch.gather(heights, -1, indices)
             durations = heights_sorted[..., 1:] - heights_sorted[..., :-1]
-            diff_square /= (durations[..., :-1] + durations[..., 1:]) / 2.0
+            weights = (durations[..., :-1] + durations[..., 1:]) / 2.0
             if self.rescale:
-                diff_square *= heights_sorted[..., -1:]
-        elif self.weights is not None:
-            diff_square /= self.weights
+                weights = weights / heights_sorted[..., -1:]
+            return weights
+        return self.weights
+
+    def _call(self, *args, **kwargs) -> torch.Tensor:
+        diff_square = torch.pow(
+            self.field.tensor[..., :-1] - self.field.tensor[..., 1:], 2.0
+        )
+        weights = self._difference_weights()
+        if weights is not None:
+            diff_square = diff_square / weights
 
         dim = self.field.shape[-1] - 1.0  # field dim
         precision = self.precision.tensor
@@ -98,14 +104,22 @@ class GMRF(CallableModel):
             dtype=self.field.dtype,
             device=self.field.device,
         )
+        # precision of each first difference
+        off_diagonal = precision.expand(self.field.shape[:-1] + (dim - 1,))
+        weights = self._difference_weights()
+        if weights is not None:
+            off_diagonal = off_diagonal / weights
         precision_matrix[..., range(dim - 1), range(1, dim)] = precision_matrix[
             ..., range(1, dim), range(dim - 1)
-        ] = -precision.expand(self.field.shape[:-1] + (dim - 1,))
-
-        precision_matrix[..., range(1, dim - 1), range(1, dim - 1)] = 2.0 * precision
-        precision_matrix[..., 0, 0] = precision_matrix[
-            ..., (dim - 1), (dim - 1)
-        ] = precision.squeeze(-1)
+        ] = -off_diagonal
+        diagonal = torch.zeros(
+            self.field.shape[:-1] + (dim,),
+            dtype=self.field.dtype,
+            device=self.field.device,
+        )
+        diagonal[..., :-1] += off_diagonal
+        diagonal[..., 1:] += off_diagonal
+        precision_matrix[..., range(dim), range(dim)] = diagonal
         return precision_matrix
 
     @classmethod
